@@ -10,6 +10,9 @@
    R <chunk>:<o> <chunk>:<o> ...   TlsClientHelloReader::add_bytes per chunk; <o> in {s,n,e} is the
         recorded outcome of parse_tls_client_hello (Some / None / Err) should the reader call it on
         that chunk  -> RET <N|S|E>:<buffer_len after> per chunk
+   T <flow>:<payload>:<o> ...   TCP segments (flow number, payload, recorded parser outcome as in R) through ONE TLS
+        analyzer instance (process_ipv4_packet + flow table) -> RET <S|-> per segment; TP: the same, the harness also
+        sends them through a one-worker TLS WorkerPool (direct oracle)
    K <chunk> <chunk> ...   Http2FingerprintExtractor::add_bytes per chunk -> RET <N|S> per chunk
    F <hex>     Http2Parser::parse_frames_with_offset -> RET n=<consumed> <type>,<flags>,<stream>,<len>[=<payload summary>] ...
    S <hex>     parse_settings_payload / parse_window_update_payload / parse_priority_payload(7, .)
@@ -23,7 +26,7 @@
 From Coq Require Import List NArith Bool.
 From Coq Require Import Strings.Byte.
 From HN Require Import Base.Bytes Model.TotalBase Model.TotalTcpOpt Model.TotalMisc Model.TotalReader
-  Model.TotalH2 Model.TotalRaw Model.TotalLink Spec.TotalSpec.
+  Model.TotalH2 Model.TotalRaw Model.TotalLink Model.TotalTlsFlow Spec.TotalSpec.
 Import ListNotations.
 Open Scope N_scope.
 
@@ -94,6 +97,21 @@ Definition run_K (ts : list bytes) : bytes :=
       finish (rmap (fun l => bs "RET" ++ concat (map (fun b : bool => sp :: (if b then bs "S" else bs "N")) l)) (x_feed xstate0 cs))
   | _, _ => bad end.
 
+
+Fixpoint parse_tsegs (ts : list bytes) : option (list (N * bytes * pres)) :=
+  match ts with
+  | [] => Some []
+  | t :: r =>
+      match fsplit_on ":"%byte t, parse_tsegs r with
+      | [f; c; o], Some rest =>
+          match read_N f, read_hexd c, parse_pres o with Some n, Some b, Some q => Some ((n, b, q) :: rest) | _, _, _ => None end
+      | _, _ => None end
+  end.
+Definition run_T (ts : list bytes) : bytes :=
+  match ts, parse_tsegs ts with
+  | _ :: _, Some segs => finish (rmap show_tls_run (tls_run [] segs))
+  | _, _ => bad end.
+
 Definition run_hex1 (f : bytes -> R bytes) (ts : list bytes) : bytes :=
   match ts with
   | [d] => match read_hexd d with Some b => finish (f b) | None => bad end
@@ -107,6 +125,7 @@ Definition run_line (l : bytes) : bytes :=
       else if bytes_eqb k (bs "P6") then run_P6 ts
       else if bytes_eqb k (bs "R") then run_R ts
       else if bytes_eqb k (bs "K") then run_K ts
+      else if bytes_eqb k (bs "T") || bytes_eqb k (bs "TP") then run_T ts
       else if bytes_eqb k (bs "F") then run_hex1 run_frames ts
       else if bytes_eqb k (bs "S") then run_hex1 run_payloads ts
       else if bytes_eqb k (bs "X") then run_hex1 run_raw ts
